@@ -4,9 +4,13 @@ Correspondence of M15 (lean/KmipModel/Encode.lean, Drivers/Encode.lean) with the
 
   run(ctx, rng) -> coverage dict (it calls ctx.report itself)
 
-The REAL engine (impl_engine.ImplEngine, scripted cryptography backend) is driven with generated histories
-(gen_engine.Gen: all 21 dispatched operations, all 6 protocol versions, successes and failures, multi-item batches,
-rejected requests).  Every real ResponseMessage is written exactly as the session writes it (the KMIP version of the
+The REAL engine (impl_engine.ImplEngine, scripted cryptography backend) is driven with (a) generated adaptive
+histories (gen_engine.Gen: all 21 dispatched operations, all 6 protocol versions plus unsupported ones, successes and
+every failure class, multi-item batches with every continuation option, rejected requests, random policies, engine
+restarts) and (b) a scripted scenario per protocol version that makes every operation SUCCEED on every kind of
+object (objects of all 7 types with names / groups / application information / sensitive, Get plain and wrapped,
+GetAttributes whole and by name, cryptographic operations incl. IV and authentication tag, attribute edits in the
+1.x and 2.0 forms, Locate, Query, DiscoverVersions, Revoke, Destroy, the ID placeholder in a batch).  Every real ResponseMessage is written exactly as the session writes it (the KMIP version of the
 request's protocol version; the session's error response for a request the engine rejects as a whole) and the bytes
 are compared BYTE FOR BYTE with the bytes the Lean model computes from the abstraction of the SAME real results
 (`impl_engine.data_of`, i.e. what Drivers/Engine.lean prints): the check isolates the ENCODER - the engine model is
@@ -47,6 +51,13 @@ from kmip.core import enums, secrets, utils  # noqa: E402
 from kmip.core.messages import contents  # noqa: E402
 
 VERSIONS = [10, 11, 12, 13, 14, 20]
+RULE = ("responses of the real KmipEngine to (a) adaptive random histories over all 21 operations x 6 versions "
+        "(+ unsupported versions), every failure class, multi-item batches, rejected requests, and (b) a scripted "
+        "all-success scenario per version over objects of all 7 types; each written by ResponseMessage.write as the "
+        "session does and compared byte for byte with Lean `Encode.responseBytes` of the abstraction "
+        "(impl_engine.data_of) of the same results; oracle subtrees (Key Wrapping Data, split-key fields, IV / "
+        "authentication tag) are written by the real code and counted; distinct_nontrivial = distinct real byte "
+        "strings compared")
 OPNAME = {1: "create", 2: "createKeyPair", 3: "register", 5: "deriveKey", 8: "locate", 10: "get", 11: "getAttributes",
           12: "getAttributeList", 14: "modifyAttribute", 15: "deleteAttribute", 18: "activate", 19: "revoke",
           20: "destroy", 24: "query", 30: "discoverVersions", 31: "encrypt", 32: "decrypt", 33: "sign",
@@ -67,6 +78,20 @@ class CapEngine(impl_engine.ImplEngine):
             me.last = r
             return r
         self.engine.process_request = process_request
+        # the scripted backend answers Encrypt without IV / authentication tag; a script may add them
+        # ({"k":"ok","t":…,"iv":hex,"tag":hex}) as the real backend does for random IVs / AEAD modes
+        ce = self.engine._cryptography_engine
+        enc0 = ce.encrypt
+
+        def encrypt(*a, **kw):
+            r = enc0(*a, **kw)
+            sc = me.current_script() or {}
+            if sc.get("iv") is not None:
+                r["iv_nonce"] = bytes.fromhex(sc["iv"])
+            if sc.get("tag") is not None:
+                r["auth_tag"] = bytes.fromhex(sc["tag"])
+            return r
+        ce.encrypt = encrypt
 
     def request(self, now, ident, req):
         self.last = None
@@ -219,9 +244,6 @@ def scenario(g, ver, send):
         res = (o.get("results") or [{}])[0]
         return res.get("data") if res.get("status") == "ok" else None
 
-    def uid_of(d):
-        return None if d is None else d.get("uid")
-
     objs = {}
     # Register one object of every type (Key Block with and without algorithm / length where the server accepts it)
     regs = [
@@ -274,6 +296,8 @@ def scenario(g, ver, send):
     if ver >= 12:
         for u in objs.get(2, []):
             one({"op": "encrypt", "uid": u, "params": True, "crypto": {"k": "ok", "t": hx(r.choice([0, 16, 31]))}})
+            one({"op": "encrypt", "uid": u, "params": True,
+                 "crypto": {"k": "ok", "t": hx(16), "iv": hx(12) if g.p(0.7) else None, "tag": hx(16) if g.p(0.8) else None}})
             one({"op": "decrypt", "uid": u, "params": True, "crypto": {"k": "ok", "t": hx(r.choice([1, 16]))}})
             one({"op": "mac", "uid": u, "alg": r.choice([None, 8]), "data": True, "crypto": {"k": "ok", "t": hx(20)}})
         for u in objs.get(4, []):
@@ -515,6 +539,11 @@ def run(ctx, rng, n_hist=None, length=None, n_scen=None):
                            dict(replay, broken="Encode.responseBytes vs ResponseMessage.write",
                                 real=c["real"], model=m["hex"]), no_input=True)
     cov["by_op_version_outcome"] = dict(sorted(grid.items()))
+    cov["evaluations"] = cov["compared"]
+    cov["distinct_nontrivial"] = len(set(c["real"] for c in cases if c.get("real")))
+    cov["rule"] = RULE
+    cov["samples"] = [{"request": c["line"]["req"], "real_hex": c["real"][:160] + "…"}
+                      for c in cases[:400:150] if c.get("real")]
     ops_seen = set(k.split("|")[0] for k in grid)
     cov["operations_seen"] = len(ops_seen & set(OPNAME.values()))
     cov["cells_op_version_outcome"] = len(grid)
